@@ -418,6 +418,9 @@ def run(ctx):
     r2 = ctx.rule("R2", "nothing but the workflow-file search (and init) reads the invoking directory; state paths derive from the workflow file's directory", min_instances=10)
     rule_cwd_taint(ctx, r2)
     rule_norm_path(ctx, r2)
+    from .shared import rule_option_declaration
+    rule_option_declaration(ctx, r2, "gwf.cli:main", "--file", {"default": ("workflow.py:gwf", None)},
+                            "without -f the workflow is `workflow.py:gwf`, searched upwards from the invoking directory; another default changes which project every command works on")
     r3 = ctx.rule("R3", "target names: the validator's regular language is identifier-like and excludes a trailing newline", min_instances=5)
     rule_name_validator(ctx, r3)
     r4 = ctx.rule("R4", "paths: non-empty str/PathLike without control characters anywhere; validators attached to inputs, outputs, working_dir", min_instances=6)
